@@ -404,6 +404,7 @@ func c20Batch(c *Check, tier string) int {
 		batch.Add("%d|%s|%v", it.i, it.res.Fingerprint, it.res.Together)
 	}
 	wall := time.Since(start).Seconds()
+	findings.PrintUnmet("C20", knownSeen)
 	cov := map[string]interface{}{
 		"batch_fingerprint":     batch.HashHex(),
 		"evaluations":           len(items),
